@@ -18,33 +18,39 @@ func put32(b []byte, v uint32) {
 
 func rotl(v uint32, n uint) uint32 { return v<<n | v>>(32-n) }
 
-// quarterRound is RFC 8439 §2.1 applied to the state words with the given indices (§2.2).
+// qr is the ChaCha quarter round of RFC 8439 §2.1 on four words.
+func qr(a, b, c, d uint32) (uint32, uint32, uint32, uint32) {
+	a += b
+	d ^= a
+	d = rotl(d, 16)
+	c += d
+	b ^= c
+	b = rotl(b, 12)
+	a += b
+	d ^= a
+	d = rotl(d, 8)
+	c += d
+	b ^= c
+	b = rotl(b, 7)
+	return a, b, c, d
+}
+
+// quarterRound applies qr to the state words with the given indices (RFC 8439 §2.2).
 func quarterRound(s *[16]uint32, a, b, c, d int) {
-	s[a] += s[b]
-	s[d] ^= s[a]
-	s[d] = rotl(s[d], 16)
-	s[c] += s[d]
-	s[b] ^= s[c]
-	s[b] = rotl(s[b], 12)
-	s[a] += s[b]
-	s[d] ^= s[a]
-	s[d] = rotl(s[d], 8)
-	s[c] += s[d]
-	s[b] ^= s[c]
-	s[b] = rotl(s[b], 7)
+	s[a], s[b], s[c], s[d] = qr(s[a], s[b], s[c], s[d])
 }
 
 // twentyRounds runs 10 iterations of (column round, diagonal round) — §2.3 inner_block.
 func twentyRounds(s *[16]uint32) {
 	for i := 0; i < 10; i++ {
-		quarterRound(s, 0, 4, 8, 12)
-		quarterRound(s, 1, 5, 9, 13)
-		quarterRound(s, 2, 6, 10, 14)
-		quarterRound(s, 3, 7, 11, 15)
-		quarterRound(s, 0, 5, 10, 15)
-		quarterRound(s, 1, 6, 11, 12)
-		quarterRound(s, 2, 7, 8, 13)
-		quarterRound(s, 3, 4, 9, 14)
+		s[0], s[4], s[8], s[12] = qr(s[0], s[4], s[8], s[12])
+		s[1], s[5], s[9], s[13] = qr(s[1], s[5], s[9], s[13])
+		s[2], s[6], s[10], s[14] = qr(s[2], s[6], s[10], s[14])
+		s[3], s[7], s[11], s[15] = qr(s[3], s[7], s[11], s[15])
+		s[0], s[5], s[10], s[15] = qr(s[0], s[5], s[10], s[15])
+		s[1], s[6], s[11], s[12] = qr(s[1], s[6], s[11], s[12])
+		s[2], s[7], s[8], s[13] = qr(s[2], s[7], s[8], s[13])
+		s[3], s[4], s[9], s[14] = qr(s[3], s[4], s[9], s[14])
 	}
 }
 
